@@ -18,6 +18,7 @@
 EXTENDS Integers, Sequences, FiniteSets, TLC, Json
 
 CONSTANTS NCores, NEntries,
+          SyncLoop,   \* "all" = code (multiCore.Sync reaches every core whatever the earlier ones return); "break" = spec mutant
           Loop,       \* "all" = code; "break" = spec mutant (stop at the first failing core)
           ReportRule, \* "before-hook" = code; "after-hook" = spec mutant (terminal entries lose their report); "never" = spec mutant
           Emit
@@ -26,11 +27,14 @@ Cores == 1..NCores
 Entries == 1..NEntries
 VARIABLES script,    \* [Entries -> [Cores -> {"ok", "err"}]]
           term,      \* [Entries -> BOOLEAN]: the entry is a Panic/Fatal entry
+          syncScript,   \* [Cores -> {"ok", "err"}]: outcome of each core's Sync in the final Logger.Sync
+          synced,       \* cores whose Sync was called
           e, j, pc, errs, got, reports, lost
-vars == <<script, term, e, j, pc, errs, got, reports, lost>>
+vars == <<script, term, syncScript, synced, e, j, pc, errs, got, reports, lost>>
 
 Init == /\ script \in [Entries -> [Cores -> {"ok", "err"}]]
         /\ term \in [Entries -> BOOLEAN]
+        /\ syncScript \in [Cores -> {"ok", "err"}] /\ synced = {}
         /\ e = 1 /\ j = 1 /\ pc = "write" /\ errs = {}
         /\ got = [c \in Cores |-> <<>>]        \* entries the sink of core c accepted
         /\ reports = <<>>                      \* one record per report: [entry, cores]
@@ -53,10 +57,16 @@ Hook == /\ pc = "hook"
         /\ reports' = IF errs # {} /\ ReportRule = "after-hook" /\ ~term[e] THEN Append(reports, [entry |-> e, cores |-> errs]) ELSE reports
         /\ e' = e + 1 /\ j' = 1 /\ errs' = {} /\ pc' = "write"
         /\ UNCHANGED <<script, term, got>>
-Next == WriteCore \/ Report \/ Hook
+\* Logger.Sync after the last entry: the tee asks every core to sync and combines the errors
+SyncCore == /\ pc = "write" /\ e > NEntries /\ j <= NCores
+            /\ synced' = synced \cup {j}
+            /\ j' = IF SyncLoop = "break" /\ syncScript[j] = "err" THEN NCores + 1 ELSE j + 1
+            /\ UNCHANGED <<script, term, syncScript, e, pc, errs, got, reports, lost>>
+Next == (/\ (WriteCore \/ Report \/ Hook) /\ UNCHANGED <<syncScript, synced>>) \/ SyncCore
 Spec == Init /\ [][Next]_vars
 
-Done == e > NEntries
+Done == e > NEntries /\ j > NCores
+SyncReachesAll == Done => synced = Cores
 Failing(x) == {c \in Cores : script[x][c] = "err"}
 \* every healthy destination has every entry, in order
 HealthyGetAll == Done => \A c \in Cores : got[c] = SelectSeq([x \in Entries |-> x], LAMBDA x : script[x][c] = "ok")
@@ -65,7 +75,7 @@ Reported == Done => reports = SelectSeq([x \in Entries |-> [entry |-> x, cores |
 RECURSIVE SetToSeq(_)
 SetToSeq(S) == IF S = {} THEN <<>> ELSE LET x == CHOOSE y \in S : \A z \in S : y <= z IN <<x>> \o SetToSeq(S \ {x})
 EmitBeh == IF Emit /\ Done
-           THEN PrintT("@@BEH " \o ToJson([script |-> script, term |-> term, got |-> got,
+           THEN PrintT("@@BEH " \o ToJson([script |-> script, term |-> term, syncScript |-> syncScript, got |-> got,
                                             reports |-> [i \in 1..Len(reports) |-> [entry |-> reports[i].entry, cores |-> SetToSeq(reports[i].cores)]]]))
            ELSE TRUE
 =============================================================================
